@@ -3,3 +3,4 @@ pub mod enumstr;
 pub mod lit;
 pub mod msg;
 pub mod plan;
+pub mod tree;
